@@ -12,7 +12,6 @@
 -/
 import SparseV.Model.Basic
 
-deriving instance DecidableEq for Except
 
 namespace SparseV
 
@@ -234,7 +233,7 @@ def rollAdd (t : IdxTy) (kind : ShiftKind) (c sh : Int) : Except Err Int :=
     | .ok v => .ok v
 
 /-- one `+=` / `%=` pair on one coordinate -/
-def rollStep (t : IdxTy) (kind : ShiftKind) (c sh n : Int) : Except Err Int := do
+def rollStepW (t : IdxTy) (kind : ShiftKind) (c sh n : Int) : Except Err Int := do
   let a ← rollAdd t kind c sh
   arrPy t .mod a n
 
@@ -242,7 +241,7 @@ def rollStep (t : IdxTy) (kind : ShiftKind) (c sh n : Int) : Except Err Int := d
 def rollAxis (t : IdxTy) (kind : ShiftKind) (n : Int) : List Int → Int → Except Err Int
   | [], c => .ok c
   | sh :: rest, c => do
-    let c' ← rollStep t kind c sh n
+    let c' ← rollStepW t kind c sh n
     rollAxis t kind n rest c'
 
 /-- the whole site for one coordinate of extent `n` whose axis receives the shifts `shs` -/
@@ -256,7 +255,7 @@ def rollIdx (t : IdxTy) (kind : ShiftKind) (shape : List Int) (steps : List (Int
     Except Err (List Int) :=
   if rollGuard t shape (steps.map fun p => (p.1, shape.getD p.2 0)) then
     steps.foldlM (fun (acc : List Int) (p : Int × Nat) => do
-      let v ← rollStep t kind (acc.getD p.2 0) p.1 (shape.getD p.2 0)
+      let v ← rollStepW t kind (acc.getD p.2 0) p.1 (shape.getD p.2 0)
       pure (acc.set p.2 v)) idx
   else .error .value
 
